@@ -37,6 +37,12 @@ func Mix(seed int64, prop string, i int) uint64 {
 
 func Live(seed uint64) *Source { return &Source{state: seed, h: 1469598103934665603} }
 
+// LivePrefix is a live source whose first draws are given (systematic strata:
+// the stratum index is the first choice of the run; everything else is drawn).
+func LivePrefix(seed uint64, prefix []uint32) *Source {
+	return &Source{state: seed, in: prefix, h: 1469598103934665603}
+}
+
 func Replay(t []uint32) *Source {
 	return &Source{replay: true, in: t, h: 1469598103934665603}
 }
@@ -62,6 +68,9 @@ func (s *Source) Intn(n int, label string) int {
 		if s.pos < len(s.in) {
 			v = s.in[s.pos] % uint32(n)
 		}
+		s.pos++
+	} else if s.pos < len(s.in) {
+		v = s.in[s.pos] % uint32(n)
 		s.pos++
 	} else {
 		v = uint32(s.next()>>33) % uint32(n)
